@@ -108,6 +108,11 @@ func (e *ES) Exec(ctx context.Context) graphql.ResponseHandler {
 	ri.T.Log(ri.ID, "exec", "call", 0, "")
 	oc := graphql.GetOperationContext(ctx)
 	op := oc.Operation
+	if op == nil {
+		// dispatched although no operation was ever selected (a request that did not
+		// pass its gates): the "exec" event above is the observation; do not crash
+		return graphql.OneShot(&graphql.Response{Data: json.RawMessage(`{}`)})
+	}
 	max := 1
 	if op.Operation == ast.Subscription {
 		max = SubscriptionResponses
